@@ -130,6 +130,7 @@ func (s *Server) flushAOF(sync bool) {
 		if err != nil {
 			panic(err)
 		}
+		s.verifFlushed()
 		// send a broadcast to all sleeping followers
 		s.fcond.Broadcast()
 		if sync {
@@ -158,13 +159,17 @@ func (s *Server) writeAOF(args []string, d *commandDetails) error {
 	}
 
 	if s.aof != nil {
+		s.verifSched("L2")
 		s.aofdirty.Store(true) // prewrite optimization flag
+		s.verifSched("L3")
 		n := len(s.aofbuf)
 		s.aofbuf = redcon.AppendArray(s.aofbuf, len(args))
 		for _, arg := range args {
 			s.aofbuf = redcon.AppendBulkString(s.aofbuf, arg)
 		}
 		s.aofsz += len(s.aofbuf) - n
+		s.verifLogged()
+		s.verifSched("L4")
 	}
 
 	// process geofences
